@@ -15,7 +15,7 @@ type feature struct {
 }
 
 func hcl(spec string, args ...Arg) TypeCase { return TypeCase{Src: "hcl", Spec: spec, Args: args} }
-func ai(k string, v int) Arg               { return Arg{K: k, I: ip(v)} }
+func ai(k string, v int) Arg                { return Arg{K: k, I: ip(v)} }
 
 func baseSchema(d string) *Sch {
 	var (
@@ -116,7 +116,9 @@ func features(d string) []feature {
 		add("comment.column:"+cm, child(func(t *Tab) { t.col("name").Comment = sp(cm) }))
 		add("comment.table:"+cm, child(func(t *Tab) { t.Comment = sp(cm) }))
 	}
-	add("comment.index", child(func(t *Tab) { t.Idx = append(t.Idx, Idx{Name: "i_cm", Parts: []Part{{Col: "qty"}}, Comment: `idx "c" ${x}`}) }))
+	add("comment.index", child(func(t *Tab) {
+		t.Idx = append(t.Idx, Idx{Name: "i_cm", Parts: []Part{{Col: "qty"}}, Comment: `idx "c" ${x}`})
+	}))
 	add("comment.schema", func(s *Sch) { s.Comment = `schema's "c" ${x}` })
 
 	// ---- primary keys ----
